@@ -161,6 +161,9 @@ def finish(ctx, mod):
         out_lines.append("KNOWN-FINDING: property=%s %s [%s, %d case(s) this run]" %
                          (ctx.prop, h["k"]["what"], kid, h["n"]))
     viol = 0
+    if ctx.failing and os.environ.get("VERIF_DEBUG_FAILS"):
+        for f in ctx.failing:
+            sys.stderr.write("FAIL %s %s %s | %s\n" % (f["meta"].get("entry"), f["meta"].get("sets", f["meta"].get("length")), f["meta"].get("kind"), f["what"][:300]))
     if ctx.failing:
         # one replay per distinct description class (first of each), at most 5
         seen = set()
@@ -265,6 +268,7 @@ def main(argv=None):
         mod.run(ctx)
     except Exception as e:
         ctx.broke("internal", "check raised", traceback.format_exc()[-3000:])
+        ctx.log("internal error: " + traceback.format_exc()[-1500:])
     return finish(ctx, mod)
 
 
